@@ -148,10 +148,10 @@ var propExplanation = map[string]string{}
 
 // propExplanationMore: rules added after the first rule set (each after an independently seeded change was missed)
 var propExplanationMore = map[string]string{
-	"C01": " Added: the final flush of a connection walks exactly the map that Accept fills — Append receivers come from workerMap.GetOrCreate, Close must-reaches Walk on the same immutable field, the Walk closure flushes its entry, the local map is append-only and Walk/GetOrCreate agree on it (R9); recovery is an ordinary call in Start, not a goroutine (R8); the typestate of the chunk in flight (C02.R3/R4) is also run for this property.",
-	"C03": " Added: a chunk is queued still loaded only through the below-threshold edge of the window comparison, threshold at most the limit (R11); the persistent gauges move at most once per chunk event, count and bytes together (R12).",
+	"C01": " Added: the final flush of a connection walks exactly the map that Accept fills — Append receivers come from workerMap.GetOrCreate, Close must-reaches Walk on the same immutable field, the Walk closure flushes its entry, the local map is append-only and Walk/GetOrCreate agree on it (R9); recovery is an ordinary call in Start, not a goroutine (R8); the typestate of the chunk in flight (C02.R3/R4) is also run for this property; every Timer.Reset is preceded by stop-and-drain while go.mod is below 1.23 (R10: a stale tick makes a timed hand-over give up at once).",
+	"C03": " Added: a chunk is queued still loaded only through the below-threshold edge of the window comparison, threshold at most the limit (R11); the persistent gauges move at most once per chunk event, count and bytes together (R12); recovered chunks are queued before Start returns (C01.R8).",
 	"C04": " Added (R5): no failed call of the persistence tree is reported as success — the call's error is assumed non-nil and the CFG is explored path-sensitively in nil / non-nil facts (shadowed error variables, overwritten or discarded errors are found; a retry ends the path).",
-	"C05": " Added: recovered chunks are queued by an ordinary call in Start (not a goroutine), so Accept cannot overtake them (C01.R8).",
+	"C05": " Added: recovered chunks are queued by an ordinary call in Start (not a goroutine), so Accept cannot overtake them (C01.R8); a timestamp rendered into the chunk id must be fixed-width and in UTC (R6).",
 	"C06": " Added: the permanent key slice is followed from GetOrCreate through every function that receives it; no element of it is ever rewritten, so identity is built from the values the record was routed by (R6); the directory hash is taken of the id itself, never of the sanitised name (R5).",
 	"C07": " R3 is a content taint: deep copies are identity, helpers are followed, a byte-offset cut after the cleaner re-taints.",
 	"C09": " Added: cross-record state of the parser (C15.R6) and universe-wide transient-string stores (C12.R6).",
@@ -159,10 +159,10 @@ var propExplanationMore = map[string]string{
 	"C11": " Added (R9): constructor-wired field pairs (a helper built on a buffer / channel kept in a sibling field) are enumerated from all constructors; the wired field is stored nowhere else.",
 	"C12": " R1 finds the recycle path as the call chain from Release to the record's Pool.Put (helper names do not matter). Added: universe-wide transient-string store rule over per-record code (R6); no record field aliases a long-lived scratch buffer, and per-record packages do not import unsafe outside util/strings.go (R7).",
 	"C13": " Added: cross-record state (C15.R6): timezoneCache is proved a key-determined cache; a memo must be keyed by everything its value depends on. R2 accepts a memo field that only ever holds the parser's result under err == nil. R5: the zone offset arithmetic is delegated to package time (FixedZone of time.Parse(...).Zone()); offsets computed by the module are UNDECIDED, which fails.",
-	"C15": " Added (R6): every field that per-record code of the transforms and the parser both writes and reads is a key-determined cache, a whole-input memo or one of 6 reviewed items (batched counters, a scratch buffer, the documented sampling totals).",
+	"C15": " Added (R6): every field that per-record code of the transforms and the parser both writes and reads is a key-determined cache, a whole-input memo or a reviewed item (batched counters, scratch buffers, the documented sampling totals). R7: each value-matcher tag is exactly the primitive its documentation names (operator, strings function, bound glob/regexp method of the compiled operand); anything else is UNDECIDED and fails.",
 	"C16": " C07.R1 (run-time index safety of what an accepted configuration builds) is run for this property too. Added: index safety of the loading / verification tree itself (R5); no check receives a never-assigned (shadowed) variable that it reads (R6); no failed check is reported as success (R7, the failure walker of C04.R5).",
 	"C17": " R1 also requires every call on a sink value taken from a slot to run with the lock held; R4 treats a direct Close of the connection as a release of the slot key.",
-	"C19": " Added: the persistent-chunk gauges move at most once per chunk event (C03.R12); attribution: no transient string is kept as a key of the selected key set (C12.R6) and SelectMetricKeySet carries no cross-record state other than key-determined caches and reviewed items (C15.R6).",
+	"C19": " Added: the persistent-chunk gauges move at most once per chunk event (C03.R12); attribution: no transient string is kept as a key of the selected key set (C12.R6) and SelectMetricKeySet carries no cross-record state other than key-determined caches and reviewed items (C15.R6); a key set's batched counters are flushed together and never removed unflushed (R8).",
 }
 var propAssumptions = map[string][]string{}
 
